@@ -24,12 +24,19 @@ use crate::pair::scalar_class;
 use crate::tower::{bls12_out, bls2_out, bn12, bn12_out, bn2_out, fmt_el, modulus, operand};
 
 fn bn_g1_str(p: &bn256::G1Affine) -> String {
+    // (`coordinates()` of the derive macro returns Some((0,0)) for the identity)
+    if bool::from(p.is_identity()) {
+        return "inf".to_string();
+    }
     match Option::<midnight_curves::Coordinates<bn256::G1Affine>>::from(p.coordinates()) {
         Some(c) => format!("{},{}", mzkh::fe_hex(c.x()), mzkh::fe_hex(c.y())),
         None => "inf".to_string(),
     }
 }
 fn bn_g2_str(q: &bn256::G2Affine) -> String {
+    if bool::from(q.is_identity()) {
+        return "inf".to_string();
+    }
     match Option::<midnight_curves::Coordinates<bn256::G2Affine>>::from(q.coordinates()) {
         Some(c) => format!("{},{}", fmt_el(&bn2_out(c.x())), fmt_el(&bn2_out(c.y()))),
         None => "inf".to_string(),
@@ -77,7 +84,7 @@ fn run_bn(ctx: &mut Ctx) {
     let mut outputs: Vec<bn256::Fq12> = vec![];
     for rep in 0..reps {
         for n in 0..=8usize {
-            for variant in 0..(if n == 0 { 1 } else if quick { 2 } else { 4 }) {
+            for variant in 0..(if n == 0 { 1 } else { 4 }) {
                 let pts: Vec<(bn256::G1Affine, bn256::G2Affine)> = (0..n)
                     .map(|i| {
                         // variant 0: no identities; others: identities mixed in
